@@ -29,9 +29,9 @@ m = {
     "setup_cmd": "sh harness/setup.sh",
     "hooks": {
         "guard": "Y0_VERIF",
-        "enable": "checks set Y0_VERIF=1 and PYTHONPATH=/repo/src before importing y0; no source hook is needed to decide any property (sequential library: the linearisation point is the public call's return)",
+        "enable": "checks set Y0_VERIF=1 and PYTHONPATH=/repo/src before importing y0 (harness/common.py drive()); every property is decided at the public call's return (sequential library); the only source hook, y0._verif.trace in identify(), feeds the line-level trace validation against spec/IDLines.tla",
         "baseline_off_cmd": "python3 harness/baseline_off.py",
-        "source_commits": [],
+        "source_commits": ["489c4b6"],
         "add_only": True,
     },
     "engines": [{
